@@ -129,6 +129,7 @@ type Stats struct {
 	QuantumYields   int64
 	ClockReads      int64
 	RandDraws       int64
+	MapOrders       int64 // seeded decisions about map iteration order
 }
 
 type abortPanic struct{ why string }
@@ -365,6 +366,7 @@ func (s *Sim) start() {
 	S = s
 	if s.cfg.RandSeed != 0 {
 		randState = s.cfg.RandSeed
+		orderSeed(s.cfg.RandSeed)
 	}
 	for _, t := range s.tasks {
 		go t.main(s)
